@@ -101,6 +101,13 @@ def make_pool():
     sro = st + 1.0
     sro.flags.writeable = False
     P["stack_ro"] = sro
+    # arrays above the size classes where numpy / scipy switch to blocked, buffered or multi-pass code paths
+    bi, bj = numpy.indices((130, 130))
+    P["img_big"] = ((3 * bi + 5 * bj) % 11 + 1 + 0.25 * (bi % 7)).astype(float)
+    P["img_big_rect"] = P["img_big"][:, :70].copy()
+    P["img_big_view"] = P["img_big"][::2, 1::2]
+    P["stack_big"] = numpy.array([numpy.roll(base, k, k % 2) + k % 5 for k in range(130)])
+    P["vec_big"] = (numpy.arange(1025.) * 7) % 13 + 1
     P["img2"] = numpy.array([[1., 3.], [2., 7.]])
     P["stack2"] = numpy.array([[[1., 3.], [2., 7.]], [[4., 1.], [0., 2.]]])
     P["ref"] = numpy.roll(base, 1, 1) + 0.5          # reference image with non-zero minimum
@@ -315,6 +322,31 @@ def recipes():
     add("twoStepFresnel:m1", A + "opticalpropagation.twoStepFresnel", lambda P: op.twoStepFresnel(P["field"], 5e-7, 0.01, 0.01, -500.))
     add("lensAgainst", A + "opticalpropagation.lensAgainst", lambda P: op.lensAgainst(P["field"], 5e-7, 0.01, 2.5))
     add("angularSpectrum:real", A + "opticalpropagation.angularSpectrum", lambda P: op.angularSpectrum(P["img_ro"], 5e-7, 0.01, 0.01, 300.))
+    # ---- the same families on large arrays
+    for arr in ("img_big", "img_big_rect", "img_big_view", "stack_big"):
+        add("centre_of_gravity:" + arr, A + "image_processing.centroiders.centre_of_gravity", lambda P, a=arr: cen.centre_of_gravity(P[a], threshold=0.3))
+        add("brightest_pixel:" + arr, A + "image_processing.centroiders.brightest_pixel", lambda P, a=arr: cen.brightest_pixel(P[a], 0.3))
+        add("image_contrast:" + arr, A + "image_processing.contrast.image_contrast", lambda P, a=arr: con.image_contrast(P[a]))
+        add("rms_contrast:" + arr, A + "image_processing.contrast.rms_contrast", lambda P, a=arr: con.rms_contrast(P[a]))
+        add("ft2:" + arr, A + "fouriertransform.ft2", lambda P, a=arr: ftm.ft2(P[a], 0.5))
+        add("rft2:" + arr, A + "fouriertransform.rft2", lambda P, a=arr: ftm.rft2(P[a], 0.5))
+    add("correlation_centroid:stack_big", A + "image_processing.centroiders.correlation_centroid",
+        lambda P: cen.correlation_centroid(P["stack_big"], P["ref"]))
+    add("binImgs:img_big", A + "interpolation.binImgs", lambda P: ip.binImgs(P["img_big"], 2))
+    add("binImgs:img_big_rect", A + "interpolation.binImgs", lambda P: ip.binImgs(P["img_big_rect"], 5))
+    add("binImgs:stack_big", A + "interpolation.binImgs", lambda P: ip.binImgs(P["stack_big"], 3))
+    add("zoom:img_big_view", A + "interpolation.zoom", lambda P: ip.zoom(P["img_big_view"], (97, 97)))
+    add("zoom_rbs:img_big", A + "interpolation.zoom_rbs", lambda P: ip.zoom_rbs(P["img_big"], (65, 65)))
+    add("azimuthal_average:img_big", A + "image_processing.psf.azimuthal_average", lambda P: psf.azimuthal_average(P["img_big"]))
+    add("encircled_energy:img_big", A + "image_processing.psf.encircled_energy", lambda P: psf.encircled_energy(P["img_big"]))
+    add("ft:vec_big", A + "fouriertransform.ft", lambda P: ftm.ft(P["vec_big"], 0.5))
+    add("ift:vec_big", A + "fouriertransform.ift", lambda P: ftm.ift(P["vec_big"], 0.5))
+    add("rft:vec_big", A + "fouriertransform.rft", lambda P: ftm.rft(P["vec_big"], 0.5))
+    add("magnitude_to_flux:vec_big", A + "astronomy._astronomy.magnitude_to_flux", lambda P: astro.magnitude_to_flux(P["vec_big"], "K"))
+    add("angularSpectrum:img_big", A + "opticalpropagation.angularSpectrum", lambda P: op.angularSpectrum(P["img_big"], 5e-7, 0.01, 0.013, 500.))
+    add("twoStepFresnel:img_big", A + "opticalpropagation.twoStepFresnel", lambda P: op.twoStepFresnel(P["img_big"], 5e-7, 0.01, 0.013, 500.))
+    add("zernikeRadialFunc:img_big", A + "functions.zernike.zernikeRadialFunc", lambda P: zk.zernikeRadialFunc(4, 2, P["img_big"] / 14.))
+    add("kl.stf_vonKarman:img_big", A + "functions.karhunenLoeve.stf_vonKarman", lambda P: kl.stf_vonKarman(P["img_big"] / 14., 20.))
     # ---- atmos conversions
     for f in ("cn2_to_seeing", "seeing_to_cn2", "cn2_to_r0", "r0_to_cn2", "r0_to_seeing", "seeing_to_r0"):
         add(f, A + "turbulence.atmos_conversions." + f, lambda P, f=f: getattr(ac, f)(P["r0s"], 6e-7))
